@@ -511,9 +511,9 @@ pub fn def(tier: Tier) -> PropertyDef {
 	}
 	for name in cfggen::NAMES {
 		let strat = (cfggen::config_strategy(name, cfggen::GenOpts { wide: true, price_sources: false, nonneg_ma: false }), crate::gen::candle_stream(1, tier.pick(300, 900))).prop_map(|(cfg, s)| IStreamCase { cfg, s });
-		checks.push(pt(&format!("stream_{name}"), tier.pick(150, 1500), strat, run_indicator_stream));
+		checks.push(pt(&format!("stream_{name}"), tier.pick(600, 3000), strat, run_indicator_stream));
 	}
-	checks.push(pt("strings", tier.pick(20000, 200000), string_strategy(), run_string));
+	checks.push(pt("strings", tier.pick(80000, 400000), string_strategy(), run_string));
 	let _ = fail_unused;
 	PropertyDef {
 		id: "C10",
